@@ -23,6 +23,7 @@ Section G.
   Variable kids : bytes -> list oid.
   Variable empty : bytes.
   Variable part : bytes -> bytes.
+  Hypothesis kids_empty : kids empty = [].   (* used by heal_prog_valid only *)
 
   Notation file := (file bytes).
   Notation world := (world bytes).
@@ -133,4 +134,370 @@ Section G.
     - apply oget_aset_eq.
     - intros o' Hne. apply oget_aset_neq. exact Hne.
   Qed.
+
+  (* ---- add_prog ---- *)
+  Lemma probe_of_valid l w :
+    G w -> (forall it, In it l -> obj w (fst it) = None) ->
+    valid_trace (probe_of l) w = true /\ G (run (probe_of l) w) /\
+    forall o', obj (run (probe_of l) w) o' = obj w o'.
+  Proof.
+    intros HG Hl. destruct l as [|it r].
+    - split; [reflexivity|split; [exact HG|reflexivity]].
+    - apply probe_valid; [exact HG|]. apply Hl. left. reflexivity.
+  Qed.
+
+  Lemma copy_blocks_valid l : forall t w,
+    G w ->
+    (forall it, In it l -> named_ok_b (fst it) (snd it) = true /\ is_dir (fst it) = false) ->
+    let w' := run (copy_blocks t l) w in
+    valid_trace (copy_blocks t l) w = true /\ G w' /\
+    (forall o, In o (map fst l) -> exists b, In (o, b) l /\ obj w' o = Some (mkF b false)) /\
+    (forall o, ~ In o (map fst l) -> obj w' o = obj w o).
+  Proof.
+    induction l as [|[o b] r IH]; intros t w HG Hok; cbv zeta.
+    - split; [reflexivity|split; [exact HG|split; [intros o []|reflexivity]]].
+    - change (copy_blocks t ((o, b) :: r)) with (copy_block t (o, b) ++ copy_blocks (t + 1) r).
+      rewrite run_app.
+      assert (Hob : named_ok_b o b = true /\ is_dir o = false).
+      { apply (Hok (o, b)). left. reflexivity. }
+      pose proof (block_valid w t o b HG (proj1 Hob) (proj2 Hob)) as Hb. cbv zeta in Hb.
+      destruct Hb as (V1 & G1 & O1 & R1).
+      set (w1 := run (copy_block t (o, b)) w) in *.
+      assert (Hokr : forall it, In it r ->
+                named_ok_b (fst it) (snd it) = true /\ is_dir (fst it) = false).
+      { intros it Hit. apply Hok. right. exact Hit. }
+      pose proof (IH (t + 1) w1 G1 Hokr) as Hr. cbv zeta in Hr.
+      destruct Hr as (V2 & G2 & O2 & R2).
+      split; [apply valid_app; assumption|split; [exact G2|split]].
+      + intros o' Hin. destruct (in_dec oid_dec o' (map fst r)) as [Hr|Hnr].
+        * destruct (O2 o' Hr) as (b' & Hb' & Ho'). exists b'.
+          split; [right; exact Hb'|exact Ho'].
+        * simpl in Hin. destruct Hin as [<-|Hin]; [|contradiction].
+          exists b. split; [left; reflexivity|]. rewrite (R2 o Hnr). exact O1.
+      + intros o' Hnin. simpl in Hnin. rewrite R2 by (intros Hr'; apply Hnin; right; exact Hr').
+        apply R1. intros ->. apply Hnin. left. reflexivity.
+  Qed.
+
+  Lemma copy_blocks_oid l : forall t s o,
+    In s (copy_blocks t l) -> step_oid s = Some o -> In o (map fst l).
+  Proof.
+    induction l as [|[o0 b] r IH]; intros t s o Hin Hs; [destruct Hin|].
+    change (copy_blocks t ((o0, b) :: r)) with (copy_block t (o0, b) ++ copy_blocks (t + 1) r) in Hin.
+    apply in_app_or in Hin. destruct Hin as [Hin|Hin].
+    - unfold AddSteps.copy_block in Hin. cbn [fst snd] in Hin. simpl in Hin.
+      repeat (destruct Hin as [<-|Hin];
+              [simpl in Hs; try discriminate Hs; injection Hs as <-; left; reflexivity|]).
+      destruct Hin.
+    - right. exact (IH _ _ _ Hin Hs).
+  Qed.
+
+  Definition protect (f : file) : file := mkF (f_bytes f) true.
+
+  Lemma chmod1_valid w o :
+    G w -> (forall f, obj w o = Some f -> named_ok o (f_bytes f)) ->
+    step_ok w (Chmod o) = true /\ G (step w (Chmod o)) /\
+    obj (step w (Chmod o)) o = option_map protect (obj w o) /\
+    (forall o', o' <> o -> obj (step w (Chmod o)) o' = obj w o').
+  Proof.
+    intros HG Hn. destruct (obj w o) as [f|] eqn:Eo.
+    - destruct (chmod_post bytes empty w o f Eo) as (Q1 & Q2 & Q3).
+      split; [|split; [|split]].
+      + rewrite (step_ok_chmod bytes H kids w o f HG Eo). apply named_ok_b_iff. apply Hn. reflexivity.
+      + unfold G. rewrite Q1. exact HG.
+      + exact Q3.
+      + exact Q2.
+    - assert (Es : step w (Chmod o) = w).
+      { unfold AddSteps.step. rewrite Eo. reflexivity. }
+      rewrite Es. split; [|split; [exact HG|split; [exact Eo|reflexivity]]].
+      unfold AddSteps.step_ok. rewrite HG, Eo. reflexivity.
+  Qed.
+
+  Lemma chmods_valid l : forall w,
+    G w ->
+    (forall o f, In o l -> obj w o = Some f -> named_ok o (f_bytes f)) ->
+    let w' := run (map Chmod l) w in
+    valid_trace (map Chmod l) w = true /\ G w' /\
+    (forall o, In o l -> obj w' o = option_map protect (obj w o)) /\
+    (forall o, ~ In o l -> obj w' o = obj w o).
+  Proof.
+    induction l as [|o0 r IH]; intros w HG Hn; cbv zeta.
+    - split; [reflexivity|split; [exact HG|split; [intros o []|reflexivity]]].
+    - destruct (chmod1_valid w o0 HG) as (V1 & G1 & O1 & R1).
+      { intros f Hf. apply (Hn o0 f); [left; reflexivity|exact Hf]. }
+      set (w1 := step w (Chmod o0)) in *.
+      assert (Hn1 : forall o f, In o r -> obj w1 o = Some f -> named_ok o (f_bytes f)).
+      { intros o f Hin Ho. destruct (oid_dec o o0) as [->|Hne].
+        - rewrite O1 in Ho. destruct (obj w o0) as [f0|] eqn:E0; [|discriminate Ho].
+          simpl in Ho. injection Ho as <-. simpl. apply (Hn o0 f0); [left; reflexivity|exact E0].
+        - rewrite (R1 o Hne) in Ho. apply (Hn o f); [right; exact Hin|exact Ho]. }
+      pose proof (IH w1 G1 Hn1) as Hr. cbv zeta in Hr. destruct Hr as (V2 & G2 & O2 & R2).
+      change (run (map Chmod (o0 :: r)) w) with (run (map Chmod r) w1).
+      split; [|split; [exact G2|split]].
+      + change (step_ok w (Chmod o0) && valid_trace (map Chmod r) w1 = true).
+        rewrite V1, V2. reflexivity.
+      + intros o Hin. destruct (in_dec oid_dec o r) as [Hr|Hnr].
+        * rewrite (O2 o Hr). destruct (oid_dec o o0) as [->|Hne].
+          -- rewrite O1. destruct (obj w o0); reflexivity.
+          -- rewrite (R1 o Hne). reflexivity.
+        * destruct Hin as [<-|Hin]; [|contradiction].
+          rewrite (R2 o0 Hnr). exact O1.
+      + intros o Hnin. simpl in Hnin. rewrite R2 by (intros Hr'; apply Hnin; right; exact Hr'). apply R1.
+        intros ->. apply Hnin. left. reflexivity.
+  Qed.
+
+  Lemma statesave_self_valid l w :
+    G w -> (forall o f, In o l -> obj w o = Some f -> named_ok o (f_bytes f)) ->
+    step_ok w (StateSave (self_rows l)) = true.
+  Proof.
+    intros HG Hn. unfold AddSteps.step_ok. rewrite HG. apply forallb_forall.
+    intros [a v] Hin. unfold self_rows in Hin. apply in_map_iff in Hin.
+    destruct Hin as (o & He & Hin). injection He as <- <-. cbn [fst snd].
+    destruct (obj w o) as [f|] eqn:Eo; [|reflexivity].
+    apply list_N_eqb_spec. symmetry. exact (Hn o f Hin Eo).
+  Qed.
+
+  Theorem add_prog_valid t its w :
+    G w ->
+    (forall it, In it its -> named_ok_b (fst it) (snd it) = true /\ is_dir (fst it) = false) ->
+    (forall it f, In it its -> obj w (fst it) = Some f -> named_ok (fst it) (f_bytes f)) ->
+    let p := add_prog true t its w in
+    let w' := run p w in
+    valid_trace p w = true /\ G w' /\
+    (forall it, In it its ->
+       exists f, obj w' (fst it) = Some f /\ named_ok (fst it) (f_bytes f) /\ f_prot f = true) /\
+    (forall o, ~ In o (map fst its) -> obj w' o = obj w o) /\
+    (forall s, In s p -> forall o, step_oid s = Some o -> In o (map fst its)).
+  Proof.
+    intros HG Hok Hex. unfold AddSteps.add_prog. cbv zeta.
+    set (todo := filter (absent w) its).
+    set (req := dedup (map fst its)).
+    set (dirs := dedup (map _ todo)).
+    assert (Hreq1 : forall o, In o req -> In o (map fst its)).
+    { intros o. apply (proj1 (dedup_In o (map fst its))). }
+    assert (Hreq2 : forall o, In o (map fst its) -> In o req).
+    { intros o. apply (proj2 (dedup_In o (map fst its))). }
+    assert (Htodo : forall it, In it todo -> In it its /\ obj w (fst it) = None).
+    { intros it Hit. apply filter_In in Hit. destruct Hit as [Hi Ha]. split; [exact Hi|].
+      unfold AddSteps.absent in Ha. destruct (obj w (fst it)); [discriminate|reflexivity]. }
+    assert (Hsub : forall o, In o (map fst todo) -> In o (map fst its)).
+    { intros o Hin. apply in_map_iff in Hin. destruct Hin as (it & <- & Hit).
+      apply in_map. apply Htodo. exact Hit. }
+    destruct (mkdirs_valid dirs w HG) as [VA RA].
+    destruct (probe_of_valid todo w HG (fun it Hit => proj2 (Htodo it Hit))) as (VB & GB & OB).
+    set (wB := run (probe_of todo) w) in *.
+    assert (HokT : forall it, In it todo ->
+              named_ok_b (fst it) (snd it) = true /\ is_dir (fst it) = false).
+    { intros it Hit. apply Hok. apply Htodo. exact Hit. }
+    pose proof (copy_blocks_valid todo t wB GB HokT) as HC. cbv zeta in HC.
+    destruct HC as (VC & GC & OC & RC).
+    set (wC := run (copy_blocks t todo) wB) in *.
+    assert (Hkey : forall o, In o (map fst its) ->
+              exists f, obj wC o = Some f /\ named_ok o (f_bytes f)).
+    { intros o Hin. destruct (in_dec oid_dec o (map fst todo)) as [Ht|Hnt].
+      - destruct (OC o Ht) as (b & Hb & Ho). exists (mkF b false). split; [exact Ho|].
+        simpl. apply named_ok_b_iff. apply (Hok (o, b)). apply Htodo. exact Hb.
+      - rewrite (RC o Hnt), OB. apply in_map_iff in Hin. destruct Hin as (it & <- & Hit).
+        destruct (absent w it) eqn:Ea.
+        + exfalso. apply Hnt. apply in_map. apply filter_In. split; assumption.
+        + unfold AddSteps.absent in Ea. destruct (obj w (fst it)) as [f|] eqn:Ef; [|discriminate].
+          exists f. split; [reflexivity|]. exact (Hex it f Hit Ef). }
+    assert (HreqC : forall o f, In o req -> obj wC o = Some f -> named_ok o (f_bytes f)).
+    { intros o f Hin Ho. apply Hreq1 in Hin. destruct (Hkey o Hin) as (f0 & Hf0 & Hn0).
+      rewrite Ho in Hf0. injection Hf0 as <-. exact Hn0. }
+    pose proof (chmods_valid req wC GC HreqC) as HD. cbv zeta in HD.
+    destruct HD as (VD & GD & OD & RD).
+    set (wD := run (map Chmod req) wC) in *.
+    assert (HreqD : forall o f, In o req -> obj wD o = Some f -> named_ok o (f_bytes f)).
+    { intros o f Hin Ho. rewrite (OD o Hin) in Ho.
+      destruct (obj wC o) as [f0|] eqn:E0; [|discriminate Ho].
+      simpl in Ho. injection Ho as <-. exact (HreqC o f0 Hin E0). }
+    pose proof (statesave_self_valid req wD GD HreqD) as VE.
+    assert (Erun : run (map Mkdir dirs ++ probe_of todo ++ copy_blocks t todo ++
+                        map Chmod req ++ [StateSave (self_rows req)]) w
+                   = step wD (StateSave (self_rows req))).
+    { rewrite !run_app, RA. reflexivity. }
+    rewrite Erun.
+    split; [|split; [|split; [|split]]].
+    - apply valid_app; [exact VA|]. rewrite RA.
+      apply valid_app; [exact VB|]. apply valid_app; [exact VC|]. apply valid_app; [exact VD|].
+      change (step_ok wD (StateSave (self_rows req)) && true = true). rewrite VE. reflexivity.
+    - exact GD.
+    - intros it Hit.
+      assert (Hin : In (fst it) (map fst its)) by (apply in_map; exact Hit).
+      destruct (Hkey _ Hin) as (f0 & Hf0 & Hn0).
+      exists (protect f0). split; [|split; [exact Hn0|reflexivity]].
+      change (obj wD (fst it) = Some (protect f0)).
+      rewrite OD by (apply Hreq2; exact Hin). rewrite Hf0. reflexivity.
+    - intros o Hnin. change (obj wD o = obj w o).
+      rewrite RD by (intros Hr; apply Hnin; apply Hreq1; exact Hr).
+      rewrite RC by (intros Ht; apply Hnin; apply Hsub; exact Ht).
+      apply OB.
+    - intros s Hin o Hs.
+      apply in_app_or in Hin. destruct Hin as [Hin|Hin].
+      { apply in_map_iff in Hin. destruct Hin as (d & <- & _). discriminate Hs. }
+      apply in_app_or in Hin. destruct Hin as [Hin|Hin].
+      { apply Hsub. destruct todo as [|it r]; [destruct Hin|].
+        simpl in Hin. destruct Hin as [<-|[<-|[]]]; simpl in Hs; injection Hs as <-;
+          left; reflexivity. }
+      apply in_app_or in Hin. destruct Hin as [Hin|Hin].
+      { apply Hsub. exact (copy_blocks_oid _ _ _ _ Hin Hs). }
+      apply in_app_or in Hin. destruct Hin as [Hin|Hin].
+      { apply in_map_iff in Hin. destruct Hin as (o' & <- & Ho'). simpl in Hs.
+        injection Hs as <-. apply Hreq1. exact Ho'. }
+      destruct Hin as [<-|[]]. discriminate Hs.
+  Qed.
+
+  (* ---- mem_add_prog ---- *)
+  Lemma kids_ok_objs w1 w2 b : w_objs w1 = w_objs w2 -> kids_ok w1 b = kids_ok w2 b.
+  Proof.
+    intros He. unfold AddSteps.kids_ok, AddSteps.kid_ok, AddSteps.obj. rewrite He. reflexivity.
+  Qed.
+
+  Lemma mem_block_valid w t o b :
+    G w -> named_ok_b o b = true -> kids_ok w b = true ->
+    let w' := run (mem_block t (o, b)) w in
+    valid_trace (mem_block t (o, b)) w = true /\ G w' /\
+    obj w' o = Some (mkF b false) /\ forall o', o' <> o -> obj w' o' = obj w o'.
+  Proof.
+    intros HG Hn Hk. destruct w as [objs tmps rows pend].
+    unfold G in HG. cbn [w_pend] in HG. subst pend.
+    unfold AddSteps.mem_block. cbn [fst snd].
+    cbn [AddSteps.run fold_left AddSteps.valid_trace AddSteps.step AddSteps.step_ok
+         w_pend w_objs w_tmps w_rows andb].
+    unfold AddSteps.tmp. cbn [w_tmps]. rewrite !nget_aset_eq.
+    cbn [w_pend w_objs w_tmps w_rows]. rewrite !nget_aset_eq.
+    cbn [w_pend w_objs w_tmps w_rows].
+    rewrite Hn.
+    match goal with
+    | |- context [AddSteps.kids_ok bytes H kids ?x b] =>
+        rewrite (kids_ok_objs x (mkW objs tmps rows None) b eq_refl)
+    end.
+    rewrite Hk.
+    rewrite orb_true_r. cbn [andb].
+    split; [reflexivity|split; [reflexivity|split]].
+    - apply oget_aset_eq.
+    - intros o' Hne. apply oget_aset_neq. exact Hne.
+  Qed.
+
+  Theorem mem_add_prog_valid t d w :
+    G w -> named_ok_b (fst d) (snd d) = true -> kids_ok w (snd d) = true ->
+    (forall f, obj w (fst d) = Some f -> named_ok (fst d) (f_bytes f)) ->
+    let p := mem_add_prog t d w in
+    let w' := run p w in
+    valid_trace p w = true /\ G w' /\
+    (exists f, obj w' (fst d) = Some f /\ named_ok (fst d) (f_bytes f) /\ f_prot f = true) /\
+    (forall o, o <> fst d -> obj w' o = obj w o) /\
+    (forall s, In s p -> forall o, step_oid s = Some o -> o = fst d).
+  Proof.
+    destruct d as [o b]. cbn [fst snd]. intros HG Hn Hk Hex. cbv zeta.
+    unfold AddSteps.mem_add_prog. cbn [fst].
+    set (pre := if absent w (o, b) then mem_block t (o, b) else []).
+    assert (Hpre : valid_trace pre w = true /\ G (run pre w) /\
+              (exists f1, obj (run pre w) o = Some f1 /\ named_ok o (f_bytes f1)) /\
+              (forall o', o' <> o -> obj (run pre w) o' = obj w o') /\
+              (forall s, In s pre -> forall o', step_oid s = Some o' -> o' = o)).
+    { unfold pre. destruct (absent w (o, b)) eqn:Ea.
+      - pose proof (mem_block_valid w t o b HG Hn Hk) as Hb. cbv zeta in Hb.
+        destruct Hb as (V & G1 & O1 & R1).
+        split; [exact V|split; [exact G1|split; [|split; [exact R1|]]]].
+        + exists (mkF b false). split; [exact O1|]. simpl. apply named_ok_b_iff. exact Hn.
+        + intros s Hin o' Hs. unfold AddSteps.mem_block in Hin. cbn [fst snd] in Hin.
+          simpl in Hin.
+          repeat (destruct Hin as [<-|Hin];
+                  [simpl in Hs; try discriminate Hs; injection Hs as <-; reflexivity|]).
+          destruct Hin.
+      - unfold AddSteps.absent in Ea. cbn [fst] in Ea.
+        destruct (obj w o) as [f|] eqn:Ef; [|discriminate].
+        split; [reflexivity|split; [exact HG|split; [|split; [reflexivity|intros s []]]]].
+        exists f. split; [exact Ef|]. apply Hex. reflexivity. }
+    destruct Hpre as (V1 & G1 & (f1 & O1 & N1) & R1 & S1).
+    set (w1 := run pre w) in *.
+    assert (Hn1 : forall o' f, In o' [o] -> obj w1 o' = Some f -> named_ok o' (f_bytes f)).
+    { intros o' f [<-|[]] Ho. rewrite O1 in Ho. injection Ho as <-. exact N1. }
+    pose proof (chmods_valid [o] w1 G1 Hn1) as HD. cbv zeta in HD.
+    destruct HD as (VD & GD & OD & RD).
+    set (wD := run (map Chmod [o]) w1) in *.
+    assert (OD1 : obj wD o = Some (protect f1)).
+    { rewrite OD by (left; reflexivity). rewrite O1. reflexivity. }
+    assert (HnD : forall o' f, In o' [o] -> obj wD o' = Some f -> named_ok o' (f_bytes f)).
+    { intros o' f [<-|[]] Ho. rewrite OD1 in Ho. injection Ho as <-. exact N1. }
+    pose proof (statesave_self_valid [o] wD GD HnD) as VE.
+    change [Chmod o; StateSave (self_rows [o])]
+      with (map (@Chmod bytes) [o] ++ [@StateSave bytes (self_rows [o])]).
+    assert (Erun : run (pre ++ map Chmod [o] ++ [StateSave (self_rows [o])]) w
+                   = step wD (StateSave (self_rows [o]))).
+    { rewrite !run_app. reflexivity. }
+    rewrite Erun.
+    split; [|split; [|split; [|split]]].
+    - apply valid_app; [exact V1|]. apply valid_app; [exact VD|].
+      change (step_ok wD (StateSave (self_rows [o])) && true = true). rewrite VE. reflexivity.
+    - exact GD.
+    - exists (protect f1). split; [exact OD1|split; [exact N1|reflexivity]].
+    - intros o' Hne. change (obj wD o' = obj w o').
+      rewrite RD by (intros [He|[]]; apply Hne; symmetry; exact He).
+      apply R1. exact Hne.
+    - intros s Hin o' Hs.
+      apply in_app_or in Hin. destruct Hin as [Hin|Hin]; [exact (S1 s Hin o' Hs)|].
+      simpl in Hin. destruct Hin as [<-|[<-|[]]]; simpl in Hs; [|discriminate Hs].
+      injection Hs as <-. reflexivity.
+  Qed.
+
+  (* ---- heal_prog ---- *)
+  Lemma heal1_none w o : obj w o = None -> heal1_steps w o = [].
+  Proof. intros E. unfold AddSteps.heal1_steps. rewrite E. reflexivity. Qed.
+
+  Lemma heal1_oid w o s o' : In s (heal1_steps w o) -> step_oid s = Some o' -> o' = o.
+  Proof.
+    unfold AddSteps.heal1_steps. destruct (obj w o) as [f|]; [|intros []].
+    destruct (f_prot f); [intros []|].
+    destruct (row w o); cbv beta iota zeta; destruct (list_N_eqb _ _); simpl;
+      intros Hin Hs;
+      repeat (destruct Hin as [<-|Hin];
+              [simpl in Hs; try discriminate Hs; injection Hs as <-; reflexivity|]);
+      destruct Hin.
+  Qed.
+
+  Theorem heal_prog_valid qs : forall w,
+    inv w -> G w ->
+    let p := heal_prog qs w in
+    let w' := run p w in
+    valid_trace p w = true /\ inv w' /\ G w' /\
+    (forall o f, In o qs -> obj w' o = Some f -> named_ok o (f_bytes f) /\ f_prot f = true) /\
+    (forall o, ~ In o qs -> obj w' o = obj w o) /\
+    (forall o, obj w o = None -> obj w' o = None) /\
+    (forall s, In s p -> forall o, step_oid s = Some o -> In o qs).
+  Proof.
+    induction qs as [|o r IH]; intros w Hi HG; cbv zeta.
+    - change (heal_prog [] w) with (@nil astep). change (run [] w) with w.
+      split; [reflexivity|split; [exact Hi|split; [exact HG|]]].
+      split; [intros o f []|split; [reflexivity|split; [intros o Ho; exact Ho|intros s []]]].
+    - change (heal_prog (o :: r) w)
+        with (heal1_steps w o ++ heal_prog r (run (heal1_steps w o) w)).
+      rewrite run_app.
+      pose proof (heal1_valid bytes H kids empty w o Hi HG) as V1.
+      pose proof (heal1_post bytes H kids empty w o Hi HG) as P1. cbv zeta in P1.
+      destruct P1 as (G1 & R1 & O1).
+      pose proof (heal1_inv bytes H kids empty kids_empty w o Hi HG) as I1.
+      set (w1 := run (heal1_steps w o) w) in *.
+      pose proof (IH w1 I1 G1) as Hr. cbv zeta in Hr.
+      destruct Hr as (V2 & I2 & G2 & N2 & R2 & A2 & S2).
+      split; [apply valid_app; assumption|split; [exact I2|split; [exact G2|]]].
+      split; [|split; [|split]].
+      + intros o' f Hin Ho. destruct (in_dec oid_dec o' r) as [Hr|Hnr].
+        * exact (N2 o' f Hr Ho).
+        * destruct Hin as [<-|Hin]; [|contradiction].
+          rewrite (R2 o Hnr) in Ho. exact (O1 f Ho).
+      + intros o' Hnin. simpl in Hnin. rewrite R2 by (intros Hr'; apply Hnin; right; exact Hr').
+        apply R1. intros ->. apply Hnin. left. reflexivity.
+      + intros o' Hn. apply A2. destruct (oid_dec o' o) as [->|Hne].
+        * unfold w1. rewrite (heal1_none w o Hn). exact Hn.
+        * rewrite (R1 o' Hne). exact Hn.
+      + intros s Hin o' Hs. apply in_app_or in Hin. destruct Hin as [Hin|Hin].
+        * left. symmetry. exact (heal1_oid w o s o' Hin Hs).
+        * right. exact (S2 s Hin o' Hs).
+  Qed.
 End G.
+
+Print Assumptions add_prog_valid.
+Print Assumptions mem_add_prog_valid.
+Print Assumptions heal_prog_valid.
